@@ -36,7 +36,7 @@ import qcore
 
 from .boolability import get_boolability
 from .extensions import reveal_type
-from .safe import safe_equals, safe_issubclass
+from .safe import safe_equals, safe_issubclass, safe_repr
 from .value import (
     NO_RETURN_VALUE,
     UNINITIALIZED_VALUE,
@@ -154,7 +154,7 @@ class VarnameWithOrigin:
             if isinstance(index, str):
                 pieces.append(f".{index}")
             else:
-                pieces.append(f"[{index.val!r}]")
+                pieces.append(f"[{safe_repr(index.val)}]")
         return "".join(pieces)
 
 
